@@ -33,7 +33,8 @@ ASSUMPTIONS = ['MiniDB writes exactly the registered objects plus objects newly 
 
 def bounds(tier):
     return ('quick: cover families, trees N=5 @2/2 with 1-op transactions, N=4 @2/2 with <=2-op '
-            'transactions, N=5 @3/2 and 2/3 1-op, leaf kinds N=4; other families N=4 1-op; '
+            'transactions, N=5 @3/2 and 2/3 1-op, leaf kinds N=4; other families N=4 1-op; on the N=4 1-op spaces every '
+            'abort is followed - nothing read in between - by every deletion / two insertions and a commit; '
             'default-size scripted boundary scenario; thorough: cover families N=6 1-op, N=5 2-op, N=4 3-op, '
             'thinning 11 keys x 3 orders, sizes 3/2 2/3 3/3; the other 15 families at the quick depth of the '
             'cover families')
@@ -41,7 +42,8 @@ def bounds(tier):
 
 def required_guards(tier):
     return ['height>=3', 'commits', 'aborts', 'reader_checks', 'embedded_to_split',
-            'value_replacements', 'records_written', 'mutable_commits', 'mutable_aborts']
+            'value_replacements', 'records_written', 'mutable_commits', 'mutable_aborts',
+            'commit_after_untouched_abort']
 
 
 def configs(tier):
@@ -55,6 +57,7 @@ def configs(tier):
                     if tier == 'quick' or fam not in deep:
                         # quick tier for the cover families = thorough tier for the other 15
                         out.append((fam, kind, impl, (2, 2), 5, 1, 20 if c else 60))
+                        out.append((fam, kind, impl, (2, 2), 4, 1, 5 if c else 15))    # + follow-ups of aborts
                         big = c and kind == 'BTree' and fam in ('OO', 'IF', 'fs', 'QL')
                         out.append((fam, kind, impl, (2, 2), 5 if big else 4, 2, 200 if big else 30))
                         if c:
@@ -307,6 +310,10 @@ def job(fam, kind, impl, sizes, n, L):
             w.commit(w.run(ops))
         return w
 
+    # second transactions after an abort: every deletion and two insertions, on the small spaces
+    follow_aborts = tree and n <= 4 and L == 1
+    follow_ops = [(op,) for op in S.delete_alphabet(ctx, keys)] + \
+        [(op,) for op in (S.build_prefix(ctx, keys, vals, 'asc')[:1] + S.build_prefix(ctx, keys, vals, 'desc')[:1])]
     w0 = rebuild(prefix_hist)
     k0 = (C.dump(w0.t, tree), layout(w0.t, tree))
     seen = {k0}
@@ -409,6 +416,34 @@ def job(fam, kind, impl, sizes, n, L):
                             w.t._check()
                     except Exception as e:      # noqa
                         report('abort', 'exc-' + type(e).__name__, 'after abort: %r' % (e,))
+                    # the nodes the aborted transaction had changed are ghosts now.  A DIFFERENT transaction
+                    # that arrives before anything has read them again (the checks above reload every
+                    # node, so this starts over): abort, then - untouched - one more operation, commit
+                    if follow_aborts:
+                        for ops2 in follow_ops:
+                            w2 = rebuild(hist)
+                            try:
+                                w2.run(ops)
+                                w2.conn.abort()
+                                m2 = w2.run(ops2)
+                            except Exception as e:      # noqa
+                                if not isinstance(e, KeyError):
+                                    report('abort', 'exc-' + type(e).__name__,
+                                           'abort of %r, then %r: %r' % (ops, ops2, e))
+                                continue
+                            flags['lone'] = lone_inline(w2.t, tree)
+                            try:
+                                w2.commit(m2)
+                            except Exception as e:      # noqa
+                                report('commit', 'exc-' + type(e).__name__,
+                                       'abort of %r, then commit of %r raised %r' % (ops, ops2, e))
+                                continue
+                            guards['commit_after_untouched_abort'] += 1
+                            transitions += 1
+                            compared += 1
+                            verify_reader(ctx, w2, sizes, m2.contents(), report, guards,
+                                          'abort of %r, then (nothing read in between) commit of %r' % (ops, ops2))
+                        flags['lone'] = False
                     # and the writer is still usable: the same transaction now commits fine
                     try:
                         m2 = w.run(ops)
